@@ -66,8 +66,9 @@ chk("C21", MC,
     "counters and counts one error per differing counter iff output is enabled and the frame is long enough; otherwise "
     "frame and counters are unchanged; always XDP_TX. The real sterile() output is parsed by an independent frame parser "
     "(writers NOP, rest identical). Composition with the dispatcher: every dispatcher exit that does not run the group "
-    "changes only index byte/ethertype (real dispatcher bytecode), so together with C22's history BMC no frame returns "
-    "to the bus with enabled writers unless the group program processed it in that pass.",
+    "changes only index byte/ethertype (real dispatcher bytecode). Histories: BMC over the dispatcher summary (deliver / "
+    "lose / inject in any order, depth 14 / 24, any counter): a frame whose writers the group program enabled is never "
+    "returned to the bus by the dispatcher alone.",
     BASE_NOTE + " The dispatcher part runs under the C22 harness workaround on this tree.",
     "SMT symbolic execution of the emitted group program over a symbolic frame + compositional argument with C22's BMC", "A:8/C21")
 
